@@ -18,6 +18,7 @@ Not decided: weighted-mean values; which template wins when the top spike counts
 import ast
 
 from vlib import q
+from vlib.pat import Pat, returned
 from vlib.front import unparse, dotted, const_value, AnchorMissing
 from vlib.shape import Shape, Space, Ix, Q, D, BoolT, StrT, NoneT, SizeOf, UNK, is_unk, Arr, Rec, Tup, ListT, DictT, B
 from obligations.shape_tables import (model_attrs, M, Tmpl, Clu, Chan, Samp, Spike, AMP, AMPWH, CNT)
@@ -61,20 +62,61 @@ def run(ctx):
         ctx.check(isinstance(nan, Arr) and isinstance(nan.elem, Ix) and nan.elem.space is Clu, 'C08.A1', gm, 'empty ids', 'the empty-id list holds cluster ids', 'the empty-id list holds %s' % nan)
     else:
         ctx.undecided('C08.A1', gm, 'get_merge_map returns %s' % res)
+    PG = Pat(gm)
     dc = [n for n in gm.nodes(ast.DictComp)]
-    okr = bool(dc) and unparse(dc[0].generators[0].iter).replace(' ', '') in ('range(np.max(self.spike_clusters)+1)', 'range(self.spike_clusters.max()+1)') and \
-        unparse(dc[0].value) == '[]'
-    ctx.check(okr, 'C08.A1', gm, dc[0] if dc else 'get_merge_map', 'every cluster id from 0 to the maximum gets an (initially empty) entry',
-              'the map does not start with an empty entry for every id in range(max(spike_clusters) + 1)')
+    if not dc:
+        ctx.undecided('C08.A1', gm, 'initialisation of the map (dictionary comprehension over the cluster ids) not recognised')
+    else:
+        it = dc[0].generators[0].iter
+        good = Pat().any(['range(np.max(self.spike_clusters) + 1)', 'range(self.spike_clusters.max() + 1)', 'range(int(np.max(self.spike_clusters)) + 1)', 'range(self.n_clusters)',
+                          'np.arange(np.max(self.spike_clusters) + 1)'], it) and isinstance(dc[0].value, ast.List) and not dc[0].value.elts
+        bad = not good and (Pat().any(['range(np.max(self.spike_clusters))', 'range(self.spike_clusters.max())', 'np.unique(self.spike_clusters)', 'self.cluster_ids', 'range(np.max(self.spike_templates) + 1)',
+                                       'range(self.n_templates)', 'range(1, np.max(self.spike_clusters) + 1)'], it))
+        if good:
+            ctx.holds('C08.A1', gm, 'every cluster id from 0 to the maximum gets an (initially empty) entry', dc[0])
+        elif bad:
+            ctx.violated('C08.A1', gm, dc[0], 'the map is initialised over `%s`, not over every id in range(max(spike_clusters) + 1): ids without spikes (or the highest id) get no entry' % unparse(it))
+        else:
+            ctx.undecided('C08.A1', gm, 'initialisation of the map `%s` not in a recognised form' % unparse(dc[0])[:70], dc[0])
     loops = gm.nodes(ast.For)
-    oks = bool(loops) and unparse(loops[0].iter).replace(' ', '') in ('np.unique(self.spike_templates)', 'self.template_ids')
-    ctx.check(oks, 'C08.A1', gm, loops[0].iter if loops else 'get_merge_map', 'every template that has spikes is distributed', 'the loop does not run over the templates that have spikes')
-    sel = [a for a in gm.nodes(ast.Assign) if 'self.spike_templates == ' in unparse(a.value)]
-    clu = [a for a in gm.nodes(ast.Assign) if unparse(a.value).startswith('self.spike_clusters[')]
-    ctx.check(bool(sel) and bool(clu) and unparse(clu[0].value) == 'self.spike_clusters[%s]' % unparse(sel[0].targets[0]), 'C08.A1', gm, clu[0] if clu else 'get_merge_map',
-              'a template is attributed to the clusters of ITS spikes', 'a template is not attributed to the clusters of its own spikes')
-    emp = [n for n in ast.walk(gm.node) if isinstance(n, ast.Compare) and unparse(n).replace(' ', '') in ('len(val)==0', 'notval')]
-    ctx.check(bool(emp), 'C08.A1', gm, emp[0] if emp else 'get_merge_map', 'ids without any template are reported as empty', 'the empty-id test is not `len(val) == 0`')
+    if not loops:
+        ctx.undecided('C08.A1', gm, 'loop over the templates not recognised')
+    else:
+        it = loops[0].iter
+        good = Pat().any(['np.unique(self.spike_templates)', 'self.template_ids', '_unique(self.spike_templates)', 'range(self.n_templates)', 'range(np.max(self.spike_templates) + 1)'], it)
+        bad = not good and Pat().any(['np.unique(self.spike_clusters)', 'self.cluster_ids', 'range(self.n_clusters)'], it)
+        if good:
+            ctx.holds('C08.A1', gm, 'every template that has spikes is distributed', it)
+        elif bad:
+            ctx.violated('C08.A1', gm, it, 'the loop runs over `%s`, not over the templates that have spikes' % unparse(it))
+        else:
+            ctx.undecided('C08.A1', gm, 'iteration `%s` of get_merge_map not recognised' % unparse(it), it)
+        tvar = unparse(loops[0].target)
+        sel = PG.stmt('V_sel = np.where(self.spike_templates == %s)[0]' % tvar) or PG.stmt('V_sel = np.nonzero(self.spike_templates == %s)[0]' % tvar) or \
+            PG.stmt('V_sel = self.spike_templates == %s' % tvar) or PG.stmt('V_sel = np.flatnonzero(self.spike_templates == %s)' % tvar)
+        clu_good = PG.stmt('V_clu = self.spike_clusters[V_sel]') if sel is not None else None
+        clu_bad = None
+        if sel is not None and clu_good is None:
+            clu_bad = PG.stmt('V_clu = self.spike_templates[V_sel]') or PG.stmt('V_clu = self.spike_clusters')
+            if clu_bad is None:
+                other = PG.stmt('V_clu = self.spike_clusters[E_ix]')
+                if other is not None and {n.id for n in ast.walk(other.value.slice) if isinstance(n, ast.Name)} <= {PG.name('V_sel'), 'len', tvar}:
+                    clu_bad = other     # the same local vocabulary arranged differently: the clusters read are not those of the selected spikes
+        inline = PG.expr('self.spike_clusters[self.spike_templates == %s]' % tvar)
+        if clu_good is not None or inline is not None:
+            ctx.holds('C08.A1', gm, 'a template is attributed to the clusters of ITS spikes', clu_good or inline)
+        elif clu_bad is not None:
+            ctx.violated('C08.A1', gm, clu_bad, 'a template is not attributed to the clusters of its own spikes (`%s`)' % unparse(clu_bad))
+        else:
+            ctx.undecided('C08.A1', gm, 'selection of the clusters of a template\'s spikes not recognised')
+    emp = [n for n in ast.walk(gm.node) if isinstance(n, (ast.Compare, ast.UnaryOp)) and Pat().any(['len(V_v) == 0', 'not V_v', 'len(V_v) < 1', 'V_v == []'], n)]
+    emp_bad = [n for n in ast.walk(gm.node) if isinstance(n, ast.Compare) and Pat().any(['len(V_v) > 0', 'len(V_v) == 1', 'len(V_v) != 0', 'len(V_v) >= 1'], n)]
+    if emp:
+        ctx.holds('C08.A1', gm, 'ids without any template are reported as empty', emp[0])
+    elif emp_bad:
+        ctx.violated('C08.A1', gm, emp_bad[0], 'the empty-id list is built on `%s`, not on ids whose template list is empty' % unparse(emp_bad[0]))
+    else:
+        ctx.undecided('C08.A1', gm, 'the test selecting the empty ids was not recognised')
     # ---- A3
     mw = meth('get_cluster_mean_waveforms')
     for unw in (True, False):
@@ -161,22 +203,48 @@ def run(ctx):
     z = [c for c in cw.calls() if dotted(c.func) == 'np.zeros']
     okz = bool(z) and unparse(z[0].args[0]).replace(' ', '').startswith(('(np.max(self.cluster_ids)+1,', '(self.cluster_ids.max()+1,', '(np.max(self.spike_clusters)+1,', '(self.spike_clusters.max()+1,'))
     ctx.check(okz, 'C08.A2', cw, z[0] if z else 'cluster_waveforms', 'one (zero-initialised) waveform per cluster id up to the maximum', 'the array does not have max(cluster id) + 1 rows')
-    single = [a for a in cw.nodes(ast.Assign) if isinstance(a.targets[0], ast.Subscript) and 'self.sparse_templates.data[' in unparse(a.value)]
-    oks = False
-    if single:
-        ifn = [i for i in cw.ancestors(single[0]) if isinstance(i, ast.If)]
-        cond = unparse(ifn[0].test).replace(' ', '') if ifn else ''
-        oks = cond in ('len(val)==1',) and unparse(single[0].value).replace(' ', '') in ('self.sparse_templates.data[val[0],:,:]', 'self.sparse_templates.data[val[0]]', 'self.sparse_templates.data[val[0],...]')
-    ctx.check(oks, 'C08.A2', cw, single[0] if single else 'cluster_waveforms', 'a cluster stemming from exactly one template copies that template unchanged',
-              'single-template clusters do not copy sparse_templates.data[that template]')
-    multi = [c for c in cw.calls() if q.method_name(c) == 'get_cluster_mean_waveforms']
-    okm = False
-    if multi:
-        ifn = [i for i in cw.ancestors(multi[0]) if isinstance(i, ast.If)]
-        cond = unparse(ifn[-1].test).replace(' ', '') if ifn else ''
-        okm = cond in ('len(val)>1', 'len(val)>=2') and const_value(q.kwarg(multi[0], 'unwhiten')) is False and unparse(multi[0].args[0]) == unparse(cw.nodes(ast.For)[0].target.elts[0])
-    ctx.check(okm, 'C08.A2', cw, multi[0] if multi else 'cluster_waveforms', 'a cluster stemming from several templates stores their (whitened) weighted mean',
-              'multi-template clusters do not store get_cluster_mean_waveforms(cluster, unwhiten=False)')
+    loopc = [f for f in cw.nodes(ast.For) if Pat().m('self.merge_map.items()', f.iter) and isinstance(f.target, ast.Tuple) and len(f.target.elts) == 2]
+    if not loopc:
+        ctx.undecided('C08.A2', cw, 'loop over self.merge_map.items() not recognised')
+        multi = [c for c in cw.calls() if q.method_name(c) == 'get_cluster_mean_waveforms']
+    else:
+        cvar_, vvar_ = unparse(loopc[0].target.elts[0]), unparse(loopc[0].target.elts[1])
+        PW = Pat(cw)
+        single = [a for a in ast.walk(loopc[0]) if isinstance(a, ast.Assign) and isinstance(a.targets[0], ast.Subscript) and 'self.sparse_templates.data[' in unparse(a.value)]
+        if not single:
+            ctx.undecided('C08.A2', cw, 'the copy of a single template into its cluster row was not recognised')
+        else:
+            ifn = [i for i in cw.ancestors(single[0]) if isinstance(i, ast.If)]
+            cond_ok = any(Pat().any(['len(%s) == 1' % vvar_], i.test) for i in ifn)
+            src_good = Pat().any(['self.sparse_templates.data[%s[0], :, :]' % vvar_, 'self.sparse_templates.data[%s[0]]' % vvar_, 'self.sparse_templates.data[%s[0], ...]' % vvar_,
+                                  'self.sparse_templates.data[%s[-1], :, :]' % vvar_], single[0].value)
+            dst_good = Pat().any(['data[%s, :, :]' % cvar_, 'data[%s]' % cvar_, 'data[%s, ...]' % cvar_], single[0].targets[0]) or \
+                (isinstance(single[0].targets[0].value, ast.Name) and Pat().any(['ANY[%s, :, :]' % cvar_, 'ANY[%s]' % cvar_, 'ANY[%s, ...]' % cvar_], single[0].targets[0]))
+            vocab_ = {cvar_, vvar_, 'self', 'data'} | {unparse(single[0].targets[0].value)}
+            same_vocab = {n.id for n in ast.walk(single[0]) if isinstance(n, ast.Name)} <= vocab_
+            if cond_ok and src_good and dst_good:
+                ctx.holds('C08.A2', cw, 'a cluster stemming from exactly one template copies that template unchanged', single[0])
+            elif same_vocab and ifn:
+                ctx.violated('C08.A2', cw, single[0], 'single-template clusters do not copy sparse_templates.data[that template] into their own row (`%s` under `%s`)' %
+                             (unparse(single[0]), unparse(ifn[-1].test)))
+            else:
+                ctx.undecided('C08.A2', cw, 'single-template copy not in a recognised form', single[0])
+        multi = [c for c in ast.walk(loopc[0]) if isinstance(c, ast.Call) and q.method_name(c) == 'get_cluster_mean_waveforms']
+        if not multi:
+            ctx.undecided('C08.A2', cw, 'the call computing the mean waveform of a multi-template cluster was not found')
+        else:
+            ifn = [i for i in cw.ancestors(multi[0]) if isinstance(i, ast.If) and 'len(' in unparse(i.test)]
+            cond_good = any(Pat().any(['len(%s) > 1' % vvar_, 'len(%s) >= 2' % vvar_], i.test) for i in ifn)
+            cond_bad = not cond_good and any(isinstance(n, ast.Compare) for i in ifn for n in ast.walk(i.test))
+            unw = q.kwarg(multi[0], 'unwhiten')
+            arg_ok = bool(multi[0].args) and unparse(multi[0].args[0]) == cvar_
+            if cond_good and const_value(unw) is False and arg_ok:
+                ctx.holds('C08.A2', cw, 'a cluster stemming from several templates stores their (whitened) weighted mean', multi[0])
+            elif cond_bad or (unw is not None and const_value(unw) is True) or unw is None or (multi[0].args and not arg_ok and isinstance(multi[0].args[0], ast.Name)):
+                ctx.violated('C08.A2', cw, multi[0], 'multi-template clusters do not store get_cluster_mean_waveforms(cluster, unwhiten=False) under `len(templates) > 1` '
+                             '(`%s` under `%s`)' % (unparse(multi[0]), unparse(ifn[-1].test) if ifn else 'no test'))
+            else:
+                ctx.undecided('C08.A2', cw, 'multi-template branch not in a recognised form', multi[0])
     # the mean stored for a cluster is computed FOR THAT cluster (it depends on the cluster's own spike counts, not only on its set of templates)
     if multi:
         loop = [f for f in cw.nodes(ast.For) if q.contains(f, multi[0])]
@@ -213,17 +281,27 @@ def run(ctx):
     if br is None:
         ctx.violated('C08.A4', ld, '_load_data', '_load_data no longer distinguishes curated from uncurated assignments')
     else:
+        sames = ['np.all(self.spike_clusters == self.spike_templates)', 'np.array_equal(self.spike_clusters, self.spike_templates)', '(self.spike_clusters == self.spike_templates).all()']
+        flipped = False
+        test0 = br.test
+        if isinstance(br.test, ast.UnaryOp) and isinstance(br.test.op, ast.Not) and isinstance(br.test.operand, ast.BoolOp):
+            # `if not (curated-condition): <uncurated> else: <curated>`
+            flipped = True
+            br = ast.If(test=br.test.operand, body=br.orelse, orelse=br.body)
+            ast.copy_location(br, test0)
+        good = any(Pat().m('not %s and self.sparse_templates.cols is None' % x, br.test) for x in sames) or \
+            any(Pat().m('np.any(self.spike_clusters != self.spike_templates) and self.sparse_templates.cols is None', br.test) for x in sames)
         t = unparse(br.test).replace(' ', '')
-        same = ('np.all(self.spike_clusters==self.spike_templates)', 'np.array_equal(self.spike_clusters,self.spike_templates)', '(self.spike_clusters==self.spike_templates).all()')
-        good = tuple('not%sandself.sparse_templates.colsisNone' % x for x in same) + tuple('self.sparse_templates.colsisNoneandnot%s' % x for x in same)
-        if t in good:
+        has_same = any(any(Pat().m(x, n) for x in sames) or Pat().m('np.any(self.spike_clusters != self.spike_templates)', n) for n in ast.walk(br.test))
+        has_dense = any(Pat().m('self.sparse_templates.cols is None', n) for n in ast.walk(br.test))
+        if good:
             ctx.holds('C08.A4', ld, 'merged cluster waveforms are computed iff the per-spike assignments differ and the templates are dense', br.test)
         elif 'cluster_ids' in t or 'template_ids' in t or 'n_clusters' in t or 'n_templates' in t:
             ctx.violated('C08.A4', ld, br.test, 'the curated branch is decided on `%s`, which compares the SETS of ids: moving spikes between existing clusters (no new id) is treated as '
                          'uncurated and the cluster waveforms / merge map stay those of the templates' % unparse(br.test))
-        elif not any(x in t for x in same):
+        elif not has_same:
             ctx.violated('C08.A4', ld, br.test, 'the curated branch is taken on `%s`, not on a per-spike comparison of cluster and template assignments' % unparse(br.test))
-        elif 'colsisNone' not in t:
+        elif not has_dense:
             ctx.violated('C08.A4', ld, br.test, 'the curated branch is taken for sparse templates too (`%s`)' % unparse(br.test))
         else:
             ctx.undecided('C08.A4', ld, 'curation test `%s` not recognised' % unparse(br.test), br.test)
